@@ -90,6 +90,59 @@ theorem revoked_key_not_trusted (log : List DevEv) (k : Nat) :
   rw [List.foldl_append]
   simp [devStep]
 
+/-- C11/4b.  The trusted set the server checks against (its cache) is the reduction of the
+device log it persists, after account creation and any sequence of merged patches and forced
+updates of the whole log. -/
+theorem cache_is_reduction_of_log (log0 : List DevEv) (ops : List DevOp) :
+    ((DevStore.create log0).run ops).cache = reduceDevices ((DevStore.create log0).run ops).log := by
+  have h : ∀ (s : DevStore), s.cache = reduceDevices s.log →
+      (s.run ops).cache = reduceDevices (s.run ops).log := by
+    induction ops with
+    | nil => intro s hs; simpa [DevStore.run] using hs
+    | cons op ops ih =>
+      intro s _
+      simp only [DevStore.run, List.foldl_cons]
+      apply ih
+      cases op <;> rfl
+  exact h _ rfl
+
+/-- C11/4c.  A device revoked by whatever reaches the server last — a merged patch ending in
+`revoke k` or a forced update whose log ends in `revoke k` — is refused on every endpoint. -/
+theorem revoked_device_refused_after_history (access : Option Access) (log0 : List DevEv)
+    (ops : List DevOp) (last : DevOp) (k : Nat) (r : Request) (acct : Nat) (msg : Nat)
+    (hlast : (∃ evs, last = .patch (evs ++ [.revoke k])) ∨ (∃ l, last = .force (l ++ [.revoke k])))
+    (hr : r.headerAccount = some acct) (hc : r.cred = .token { key := k, msg := msg }) :
+    let st := ((DevStore.create log0).run (ops ++ [last]))
+    ∀ srv : Server, srv.access = access → srv.trusted acct = some st.cache →
+      authenticate srv r = .forbidden := by
+  intro st srv _ htr
+  have hk : k ∉ st.cache := by
+    have : st = (((DevStore.create log0).run ops).apply last) := by
+      simp [st, DevStore.run, List.foldl_append]
+    rw [this]
+    rcases hlast with ⟨evs, rfl⟩ | ⟨l, rfl⟩
+    · simp only [DevStore.apply]
+      rw [← List.append_assoc]
+      exact revoked_key_not_trusted _ k
+    · simp only [DevStore.apply]
+      exact revoked_key_not_trusted _ k
+  unfold authenticate
+  rw [hr, hc]
+  simp only
+  split
+  · rfl
+  · rw [htr]
+    have : signedBy st.cache { key := k, msg := msg } r.signedBytes = false := by
+      unfold signedBy
+      simp only [List.any_eq_false]
+      intro x hx
+      have : x ≠ k := fun h => hk (h ▸ hx)
+      simp [this]
+    simp [this]
+
+/-- the premises are satisfiable: device 3 trusted at creation, revoked by a forced update -/
+example : ((DevStore.create [.trust 1, .trust 2, .trust 3]).run [.patch [.revoke 2], .force [.trust 1, .trust 3, .revoke 3]]).cache = [1] := by decide
+
 /-- C11/5.  Access lists: an account on the deny list (deny-only configuration), or absent
 from a configured allow list (allow-only configuration), is refused on every authenticated
 endpoint whatever it presents. -/
